@@ -11,7 +11,9 @@ AREA = archgen.AREA
 PROPS_MODULE = "MorfuseModel.Props.C11"
 PROPS_FILE = os.path.join(LEAN, "MorfuseModel", "Props", "C11.lean")
 DETECT = ("hdr", "tag", "ver", "size", "cls")        # a substitution here must be reported
-DAMAGE = ("len", "name", "ncls", "idx")              # here only "no crash, nothing outside the objects"
+DAMAGE = ("len", "name", "ncls", "idx", "pcls")      # here only "no crash, nothing outside the objects"
+# pcls: class-name characters of a record that is read with the polymorphic ReadObject(): the reader has no
+# expected class to compare with (a name damaged into another registered name yields an object of that class)
 
 TRUSTED = [
     "Lean 4.33.0 kernel (lake build; leanchecker in the thorough tier)",
@@ -259,6 +261,10 @@ def fixed_archives():
          [("p", "u8", 1), ("s", b"Test string"), li(1), ("sp", 1), ("op", 1), ("sp", 2), ("op", 2), li(2), ("op", 0),
           ("pos", 3), ("op", 3)]),
         ((2, b"MFUS", b""), [("obj", 1, b"VNode", [("op", 1), ("obj", 2, b"VNodf", []), ("s", b"")]), ("obj", 3, b"VNode", [])]),
+        # the same object records read with ReadObject<T>() and with the polymorphic ReadObject()
+        ((1, b"MFUS", b"x"), [("objp", 1, L, [("p", "u8", 0)]), ("objt", 2, L, [("p", "u8", 0)]), ("sp", 1),
+                              ("objp", 3, b"VNode", [("op", 1), ("objp", 4, b"VNodf", [("p", "u16", 9)]), ("s", b"ab")]),
+                              ("objt", 5, b"VNodf", [("sp", 5)])]),
         ((1, b"MFUS", b"x"), []),
     ]
 
